@@ -59,9 +59,9 @@ VALUES = {
 # values that EXPRESS does not allow in an aggregate of the base type (INTEGER into REAL is allowed by EXPRESS and
 # refused by the runtime - ambiguous for this property, not used)
 WRONG = {
-    'INTEGER': [('STRING', '1'), ('REAL', 1.0)],
-    'REAL': [('STRING', '1')],
-    'STRING': [('INTEGER', 1)],
+    'INTEGER': [('STRING', '1'), ('REAL', 1.0), ('BINARY', '1')],
+    'REAL': [('STRING', '1'), ('BINARY', '1')],
+    'STRING': [('INTEGER', 1), ('BINARY', '0101')],     # BINARY is string-like in the runtime (a str subclass) but not a STRING
 }
 
 
